@@ -310,7 +310,8 @@ def run(repo: Repo, rep: Report, tier: str) -> None:
                   f"vertex list {norm(c.args[0]) if c.args else '?'} derives from {sorted(map(str, leaves))}", mst_apply.loc(c))
     # edges returned by the tree builder only pair members of entity_ids
     dub = DefUse(mst_build)
-    appends = [c for c in calls_in(mst_build.node, "append") if norm(c.func).startswith("mst_edges")]
+    returned_b = {n.value.id for n in walk_local(mst_build.node) if isinstance(n, ast.Return) and isinstance(n.value, ast.Name)}
+    appends = [c for c in calls_in(mst_build.node, "append") if isinstance(c.func, ast.Attribute) and isinstance(c.func.value, ast.Name) and c.func.value.id in returned_b]
     ok_all = bool(appends)
     for c in appends:
         lv = dub.leaves(c.args[0])
@@ -318,24 +319,64 @@ def run(repo: Repo, rep: Report, tier: str) -> None:
             ok_all = False
     rep.check(ok_all, "C10-R6", f"{mst_build.short} edges pair members of entity_ids only",
               "edge endpoints derive from the entity_ids parameter", mst_build.loc())
-    # call site in _populate_wire_connections: per by_source group inside one (signal, colour) group
+    # call site in _populate_wire_connections: per-source group inside one (signal, colour) group
+    from .util import canon as _canon
     dup = DefUse(populate)
+    cpop = _canon(populate)
+    pmp_ = cpop.pm
+
+    def _grouped_by_source(g: str) -> bool:
+        """local dict `g` is filled as g[<edge>.source_entity_id].append(<edge>) / setdefault(...).append(...)"""
+        for c2 in calls_in(populate.node, "append"):
+            recv = c2.func.value if isinstance(c2.func, ast.Attribute) else None
+            key = None
+            if isinstance(recv, ast.Subscript) and isinstance(recv.value, ast.Name) and recv.value.id == g:
+                key = recv.slice
+            elif isinstance(recv, ast.Call) and call_name(recv) == "setdefault" and isinstance(recv.func, ast.Attribute) and isinstance(recv.func.value, ast.Name) and recv.func.value.id == g and recv.args:
+                key = recv.args[0]
+            if key is not None and cpop.text(key).endswith(".source_entity_id") and c2.args and cpop.text(key) == cpop.text(c2.args[0]) + ".source_entity_id":
+                return True
+        return False
+
     for c in calls_in(populate.node, mst_apply.name):
         a_src, a_sinks = c.args[0], c.args[1]
-        src_defs = dup.defs.get(norm(a_src), [])
-        from_group = any(how.startswith("elem") and "by_source" in norm(v) for v, how, _ in src_defs)
-        sink_leaves = dup.leaves(a_sinks)
+        # the loop that binds the source argument
+        loop = None
+        cur = c
+        while cur in pmp_:
+            cur = pmp_[cur]
+            if isinstance(cur, ast.For) and isinstance(a_src, ast.Name) and isinstance(cur.target, ast.Tuple) and len(cur.target.elts) == 2 \
+                    and isinstance(cur.target.elts[0], ast.Name) and cur.target.elts[0].id == a_src.id:
+                loop = cur
+                break
+        gname = None
+        if loop is not None:
+            for x in ast.walk(loop.iter):
+                if isinstance(x, ast.Call) and call_name(x) == "items" and isinstance(x.func, ast.Attribute) and isinstance(x.func.value, ast.Name):
+                    gname = x.func.value.id
+        from_group = gname is not None and _grouped_by_source(gname)
         rep.check(from_group, "C10-R6", f"{populate.short} spanning tree per source group",
-                  f"source argument {norm(a_src)} iterates by_source", populate.loc(c))
-        by_src_ok = any("by_source" in norm(v) for v, how, _ in dup.defs.get("source_edges", []))
-        rep.check(by_src_ok and "source_edges" in {n.id for n in ast.walk(ast.Module(body=[ast.Expr(value=x) for x in dup.value_exprs("sink_ids")], type_ignores=[])) if isinstance(n, ast.Name)},
-                  "C10-R6", f"{populate.short} sinks are the sinks of that source's edges",
-                  f"sink argument {norm(a_sinks)} <- sink_ids <- source_edges <- by_source", populate.loc(c))
+                  "the source argument iterates a dict filled as g[edge.source_entity_id].append(edge)" if from_group else f"source argument {norm(a_src)} is not the key of a by-source grouping", populate.loc(c))
+        # sinks argument must derive from the edges of that source (the loop's second target) and from nothing else outside the loop
+        members = loop.target.elts[1].id if loop is not None and isinstance(loop.target.elts[1], ast.Name) else None
+        reach: set[str] = set()
+        work = [a_sinks]
+        while work:
+            e = work.pop()
+            for x in ast.walk(e):
+                if isinstance(x, ast.Name) and x.id not in reach:
+                    reach.add(x.id)
+                    work += [v for v, how, _ in dup.defs.get(x.id, []) if how != "elem-add" or True]
+        sink_attr = any(isinstance(x, ast.Attribute) and x.attr == "sink_entity_id" for nm in reach for v in dup.value_exprs(nm) for x in ast.walk(v))
+        rep.check(members is not None and members in reach and sink_attr, "C10-R6", f"{populate.short} sinks are the sinks of that source's edges",
+                  "sink argument derives from .sink_entity_id of the group's own edges" if members in reach else f"sink argument {norm(a_sinks)} does not derive from the source's own edges", populate.loc(c))
     # the (signal,colour) group key
-    gk = [n for n in walk_local(populate.node) if isinstance(n, ast.Assign) and norm(n.targets[0]) == "group_key"]
-    ok_gk = bool(gk) and all(isinstance(n.value, ast.Tuple) and len(n.value.elts) == 2 and "signal" in norm(n.value.elts[0]) and "color" in norm(n.value.elts[1]) for n in gk)
+    gk = [n for n in walk_local(populate.node) if isinstance(n, ast.Assign) and isinstance(n.targets[0], ast.Name) and isinstance(n.value, ast.Tuple) and len(n.value.elts) == 2
+          and cpop.text(n.value.elts[0]).endswith(".resolved_signal_name")]
+    ok_gk = bool(gk) and all("_edge_color_map" in cpop.text(n.value.elts[1]) for n in gk)
+    ok_gk = ok_gk and any(isinstance(x, ast.Subscript) and isinstance(x.slice, ast.Name) and x.slice.id == gk[0].targets[0].id for x in walk_local(populate.node))
     rep.check(ok_gk, "C10-R6", f"{populate.short} groups edges by (resolved signal, colour)",
-              f"group key = {norm(gk[0].value) if gk else 'missing'}", populate.loc(gk[0]) if gk else populate.loc())
+              "group key = (edge.resolved_signal_name, colour from _edge_color_map)" if ok_gk else "missing", populate.loc(gk[0]) if gk else populate.loc())
 
     rep.rule("C10-R8", "spanning-tree wiring only re-shapes one network: colour entries stored under tree-edge keys (placement-dependent) never replace the colour recorded for a logical edge")
     from .shared import mst_colour_keys
